@@ -68,6 +68,11 @@ func HITS(g graph.Directed, tol float64) map[int64]HubAuthority {
 			norm += a * a
 		}
 		norm = math.Sqrt(norm)
+		if norm == 0 {
+			// No edges: all scores are zero.
+			clear(hub)
+			break
+		}
 
 		for i := range auth {
 			auth[i] /= norm
